@@ -4,6 +4,7 @@
    the transient ("always") settle loop with its bound.  Definitions only. *)
 From XSM Require Export Model.Exec.
 
+Definition async_loop_fuel : nat := 400.
 Definition transient_event : event := {| e_type := ""; e_kind := EPlain; e_tag := 0 |}.
 Definition init_event : event := {| e_type := "___xstate_statemachine_init___"; e_kind := EPlain; e_tag := 0 |}.
 
@@ -35,7 +36,7 @@ Fixpoint drain (n : nat) (eng : engine) (m : machine) : M :=
         match n with
         | 0 => (logo (OCut 0) (with_queue [] s), None)
         | S n' =>
-            (lift (fun s' => logo (OBegin (e_type ev) (e_tag ev)) (with_queue q s')) ;;
+            (lift (fun s' => logo (OClock (s_now s')) (logo (OBegin (e_type ev) (e_tag ev)) (with_queue q s'))) ;;
              process_event eng true m ev ;;
              settle (m_max_iter m) eng true m ;;
              drain n' eng m) s
@@ -93,8 +94,7 @@ Definition pure_initial (m : machine) (cx : ctx) : st * option err :=
    configuration and context, EMPTY history *)
 Definition pure_transition (m : machine) (p : psnap) (ev : event) : st * option err :=
   sync_send_with Pure m ev
-    {| s_cfg := ps_cfg p; s_hist := []; s_ctx := ps_ctx p; s_queue := []; s_status := Running;
-       s_output := None; s_log := []; s_raise_depth := 0 |}.
+    (mk (ps_cfg p) [] (ps_ctx p) [] Running None [] 0 0 [] 0).
 
 (* a whole sync run: start, then one send per event; errors escaping
    start()/send() are recorded in the log (the caller sees an exception) *)
@@ -130,7 +130,7 @@ Definition async_step (m : machine) (ev : event) (s : st) : st :=
   if Nat.ltb (m_max_iter m) (s_raise_depth s)
   then logo (OCut 2) (with_rd 0 s)
   else
-    let s1 := logo (OBegin (e_type ev) (e_tag ev)) s in
+    let s1 := logo (OClock (s_now s)) (logo (OBegin (e_type ev) (e_tag ev)) s) in
     let d0 := s_raise_depth s1 in
     match (process_event Async true m ev ;; settle (m_max_iter m) Async true m) s1 with
     | (s2, None) => if Nat.eqb (s_raise_depth s2) d0 then with_rd 0 s2 else s2
@@ -158,3 +158,39 @@ Definition async_run (fuel : nat) (m : machine) (cx : ctx) (evs : list event) : 
                if snd sb then sb else async_loop fuel m (async_send ev (fst sb)))
             evs
             (let s0 := catch (async_start m) (st_init cx) in async_loop fuel m s0).
+
+(* ---------------- virtual time ---------------- *)
+
+(* the interpreter is idle and the clock moves to t: each timer / service falling due is delivered at its own
+   instant and processed to quiescence before the next one.  Explicit fuel (timers may re-arm); bool = out of fuel *)
+Definition next_due (t : nat) (s : st) : option (pend * bool) :=
+  match sort_pend (filter (fun p => Nat.leb (p_due p) t) (s_pending s)) with
+  | [] => None
+  | p :: [] => Some (p, false)
+  | p :: q :: _ => Some (p, Nat.eqb (p_due p) (p_due q))     (* bool: tie on the clock *)
+  end.
+Definition drop_pend (p : pend) (s : st) : st :=
+  with_pending (filter (fun q => negb (Nat.eqb (p_seq q) (p_seq p))) (s_pending s)) (s_seq s) s.
+
+Fixpoint advance_idle (fuel : nat) (eng : engine) (m : machine) (t : nat) (s : st) : st * bool :=
+  match fuel with
+  | 0 => (s, true)
+  | S f =>
+      match next_due t s with
+      | None => (with_now (Nat.max t (s_now s)) s, false)
+      | Some (p, true) => (logo (OCut 9) s, false)      (* inconclusive: see advance_busy *)
+      | Some (p, false) =>
+          let s1 := with_now (Nat.max (p_due p) (s_now s)) (drop_pend p s) in
+          match eng with
+          | Async =>
+              match async_loop async_loop_fuel m (deliver Async p s1) with
+              | (s2, true) => (s2, true)
+              | (s2, false) => advance_idle f eng m t s2
+              end
+          | _ =>
+              (* the timer thread finds the interpreter idle and drains the queue itself *)
+              let s2 := deliver eng p s1 in
+              advance_idle f eng m t (catch (drain (m_max_iter m) eng m) s2)
+          end
+      end
+  end.
